@@ -7,8 +7,9 @@ VERIF = os.path.dirname(os.path.dirname(os.path.abspath(__file__)))
 
 REAL_E1 = "real: runner/runner.go (Run, engine, gate, cycle check) instrumented by overlay; stub: targets (synthetic graph, bodies are yields); simulated: goroutine scheduling, sync, sync/atomic, sync.Map, runtime.NumCPU"
 REAL_E2 = ("real: dawn root package (Load, loadPackage, module, function, sourceFile, target, project_index, GC, lineWriter), runner, pickle, diff, label, "
-           "internal/project, internal/mvs.BuildList + pgavlin/mvs par.Work workers, the Starlark interpreter, encoding/json, the kernel file system on tmpfs; "
-           "stub: target bodies (harness builtin sim_body), $HOME; simulated: goroutine scheduling, sync, atomics, map iteration order, math/rand, temp names, "
+           "internal/project, internal/mvs (BuildList, Resolver, FetchProject: temp directory + rename into the module cache) + pgavlin/mvs par.Work workers, the Starlark interpreter, "
+           "encoding/json, the kernel file system on tmpfs; "
+           "stub: target bodies (harness builtin sim_body), $HOME, the network (simulated vcs.Repository objects behind the dial seam, with dial / list / fetch failures); simulated: goroutine scheduling, sync, atomics, map iteration order, math/rand, temp names, "
            "process death, file-system errors and torn writes")
 REAL_E3 = "real: cache.go (Cache(), once and its generated Starlark wrapper), Starlark call machinery; stub: callables (harness builtins); simulated: goroutine scheduling, sync.RWMutex"
 REAL_E4 = ("real: internal/mvs (BuildList, Get, UpgradeAll, Tidy, Reqs, Resolver incl. FetchProject temp-dir+rename, query.go), internal/project config read/write, "
@@ -128,6 +129,26 @@ MORE = {
 for _p, _m in MORE.items():
     CHECKS[_p]["text"] += " " + _m
 
+# wave 8 and the required-projects extension of the project engine
+REQ = ("Projects with requirements (20-35% of the generated projects): dawn.toml names 1-3 other projects at versions (direct and transitive, also in cycles for C06), "
+       "their modules are fetched by dawn's own resolver from a simulated network into the module cache - by several loaders at once - and loaded from there.")
+MORE8 = {
+    "C01": REQ + " A requirement moved to another version is an edit (also under watch-mode Reload); the module cache may disappear between builds. A flaky step on a loaded project: a target runs because its output was deleted or the run is forced, its body fails after writing half of the output, and the same loaded project runs again (compared with a from-scratch build).",
+    "C02": REQ + " Wiping the module cache is a no-op edit. Forced builds (of the label, or of a target inside its closure) inside the watched window: nothing may run after them.",
+    "C03": REQ + " Crash points therefore include every step of a fetch (temp directory, file-by-file checkout, rename into the cache).",
+    "C06": REQ + " Modules of required projects count in the once-only, termination and cycle oracles; a required project's module may fail while others wait for it; flaky-disk loads now also hit the resolver.",
+    "C08": REQ + " A requirement moved to another version must change the fingerprints of the targets that reach it. Values that hold the same text as str and as bytes.",
+    "C11": "Also: the bare-major spelling path@v1 / path@v0; after a 'latest' get that is not a lowering request the build list holds at least the latest version.",
+    "C15": "Also: an invocation that only loads the project between the corruption and the build (always for the record of an interrupted target, whose must-re-run field is covered with every mask).",
+    "C18": "Also: a lone 'missing dependency' failure must belong to a target that itself names a missing label.",
+    "C20": "Also: in half of the runs releasing a lock is a yield point, so that TryLock / TryRLock can observe a lock held over a critical section without inner synchronisation.",
+    "C04": "Also: in a third of the runs releasing a lock is a yield point of the simulator.",
+    "C05": "Also: in a third of the runs releasing a lock is a yield point of the simulator.",
+    "C09": "Also: in a third of the runs releasing a lock is a yield point of the simulator.",
+}
+for _p, _m in MORE8.items():
+    CHECKS[_p]["text"] += " " + _m
+
 NOT_APPLICABLE = {
     "C07": "pure function of its input (Decode(Encode(v)) ~ v): no schedule, clock, fault or history in the statement or the code path - not a simulation target (DESIGN.md §5); stream faults on the same codec are decided under C15, values flowing through it in builds under C01/C08",
     "C12": "label parsing/printing and path confinement are pure string functions: nothing for a simulator to schedule or fault (DESIGN.md §5)",
@@ -170,7 +191,7 @@ def main():
         "setup_cmd": "./setup.sh",
         "hooks": {
             "guard": "go build -overlay (generated per run by tools/simgen); no source in /repo is changed and no build tag exists: with the overlay absent the shipped code is compiled byte for byte",
-            "enable": "./check build  (simgen rewrites sync/atomic/os/runtime/rand/time selectors, go statements, channel operations and map ranges of dawn's packages and pgavlin/mvs into /verif/.work/<treehash>/ and builds the engines with go test -c -overlay ... -modfile ...)",
+            "enable": "./check build  (simgen rewrites sync/atomic/os/runtime/rand/time selectors, go statements, channel operations and map ranges of dawn's packages and pgavlin/mvs into /verif/.work/<treehash>/, re-points the default dialer's vcs.DialGitRepository call at a seam defined in an overlay-only file of internal/mvs (harness/mvs/hook.go), and builds the engines with go test -c -overlay ... -modfile ...)",
             "baseline_off_cmd": "cd /repo && go test -vet=off -count=1 ./...",
             "source_commits": [],
             "add_only": True,
